@@ -143,8 +143,15 @@ pub struct CaPlan {
 	pub delays_ms: Vec<u64>,
 	pub faults: Vec<Fault>,
 	pub eab: Option<Eab>,
+	/// false: a binding is verified when sent but not demanded
+	#[serde(default = "default_true")]
+	pub eab_required: bool,
 	pub extra_unknown_challenge: bool,
 	pub token_len: usize,
+}
+
+fn default_true() -> bool {
+	true
 }
 
 impl Default for CaPlan {
@@ -165,6 +172,7 @@ impl Default for CaPlan {
 			delays_ms: vec![],
 			faults: vec![],
 			eab: None,
+			eab_required: true,
 			extra_unknown_challenge: false,
 			token_len: 43,
 		}
